@@ -40,7 +40,7 @@ func statsToSimkit(w *chainsim.World) {
 	sort.Strings(keys)
 	for _, k := range keys {
 		switch k {
-		case "gossip_dropped", "gossip_duplicated", "gossip_cut", "rpc_timeout", "rpc_error", "rpc_truncated", "rpc_bitflip", "crash", "restart", "partition", "heal", "ban":
+		case "gossip_topic_blackout", "gossip_dropped", "gossip_duplicated", "gossip_cut", "rpc_timeout", "rpc_error", "rpc_truncated", "rpc_bitflip", "crash", "restart", "partition", "heal", "ban":
 			simkit.FaultN(k, w.S.Stats[k])
 		default:
 			simkit.Count(k, int64(w.S.Stats[k]))
@@ -118,8 +118,10 @@ func runC02(t *rapid.T) {
 // full rounds of the generator list plus the vote window start-up.
 func checkFaultFreeFinality(t *rapid.T, w *chainsim.World, m *chainsim.Monitor) {
 	n := w.S.Nodes[0]
-	tip := n.Tip().Height
+	gh := w.P.GenesisHeight
+	tip := n.Tip().Height - gh
 	_, prec, _ := n.Heights()
+	prec -= gh
 	rounds := uint32(2*len(w.Vals) + 2)
 	if len(w.P.Module.Changes) > 0 {
 		return // the bound is stated for a constant validator set
@@ -172,6 +174,7 @@ type runCfg struct {
 	faults  chainsim.FaultPlan
 	blocks  [2]int
 	mutants bool
+	certs   time.Duration // interval of certificate probes (0: the certificate monitor is not installed)
 	tail    func(w *chainsim.World, m *chainsim.Monitor, adv *chainsim.Adversary)
 }
 
@@ -192,6 +195,9 @@ func runHonest(t *rapid.T, c runCfg, extra func(w *chainsim.World, m *chainsim.M
 	chainsim.NewSyncMonitor(w, m.Report) // the sync oracles (C19) ride along in every run
 	if c.mutants {
 		chainsim.NewMutantInjector(w, m, m.Report)
+	}
+	if c.certs > 0 {
+		chainsim.NewCertMonitor(w, m, m.Report, c.certs)
 	}
 	if !w.QuorumsIntersectInHonest() {
 		m.OutsideTheorem = true
